@@ -581,6 +581,8 @@ class Env:
 
     def __init__(self, d, fmt, files, mm):
         self.d, self.fmt, self.files, self.mm = d, fmt, files, mm
+        self.baselines = {}
+        self.restore = {}       # documents to put back intact before the follow-up reload
         for k, v in files.items():
             with open(os.path.join(d, k), 'wb') as f:
                 f.write(v)
@@ -617,22 +619,130 @@ def script_tokens(node, intern):
     return toks
 
 
-def attempt(env, target, data, priors, timeout, model=None):
+def attempt(env, target, data, priors, timeout, model=None, follow=False, restore=None):
     """Write `data` as document `target`, load the priors, then ask for target twice.
-    -> dict(outcome, problems=[(clause, msg)], corr=None|str)"""
+    follow: after a failure, load the INTACT document again (same ResourceSet, then a fresh one) and compare
+    with a load made before any failure; restore = other documents to put back intact before that.
+    -> dict(outcome, problems=[(clause, msg[, qualifier])], corr=None|str)"""
+    restore = restore if restore is not None else env.restore
+    key = (target, tuple(priors))
+    if follow and key not in env.baselines:
+        # how the intact document loads when nothing has failed (computed BEFORE the failing attempt)
+        for name, content in dict(restore or {}, **{target: env.files.get(target, env.files[f'main.{env.fmt}'])}).items():
+            with open(env.path(name), 'wb') as f:
+                f.write(content)
+        env.baselines[key] = intact_load(env, new_rset(env), target, priors, timeout, True)
+        for name in (restore or {}):
+            with open(env.path(name), 'wb') as f:
+                f.write(env.files[name])
     with open(env.path(target), 'wb') as f:
         f.write(data)
     try:
-        return _attempt(env, target, priors, timeout, model)
+        return _attempt(env, target, priors, timeout, model, follow, restore or {})
     finally:
         if target in env.files:         # the other scenarios need the intact document back
             with open(env.path(target), 'wb') as f:
                 f.write(env.files[target])
-        else:
+        elif os.path.exists(env.path(target)):
             os.remove(env.path(target))
 
 
-def _attempt(env, target, priors, timeout, model):
+def canon_dump(rs, r):
+    """Dump of resource r that can be compared between two ResourceSets: objects are named by
+    (document name, position in that document); proxies are resolved first (r comes from an intact document)."""
+    from pyecore.ecore import EProxy
+    for o in closure(r):
+        if type(o) is EProxy:
+            continue
+        for f in o.eClass.eAllReferences():
+            if f.derived:
+                continue
+            v = o.eGet(f)
+            for x in (list(v) if f.many else [v]):
+                if type(x) is EProxy and not x.resolved:
+                    try:
+                        x.force_resolve()
+                    except Exception:       # noqa: reported by wellformed()
+                        pass
+    resources = []
+    for v in rs.resources.values():
+        if not any(v is x for x in resources):
+            resources.append(v)
+    tab = {}
+    for x in resources:
+        name = os.path.basename(x.uri.normalize())
+        for oi, o in enumerate(closure(x)):
+            tab.setdefault(id(o), (name, oi))
+    return dump_resource(r, tab)
+
+
+def intact_load(env, rs, target, priors, timeout, load_priors):
+    """-> (outcome, dump or exception class, wellformedness problems, foreign objects?)"""
+    from pyecore.resources import URI
+    try:
+        if load_priors:
+            for p in priors:
+                watchdog(lambda p=p: rs.get_resource(URI(env.path(p))), timeout)
+        r = watchdog(lambda: rs.get_resource(URI(env.path(target))), timeout)
+    except Hang:
+        return ('hang', None, [], False)
+    except Exception as e:
+        return ('raised', type(e).__name__, [], False)
+    try:
+        wf = sorted(set(p[0] for p in watchdog(lambda: wellformed(r), timeout * 2)))
+        dump = watchdog(lambda: canon_dump(rs, r), timeout * 2)
+    except Hang:
+        return ('hang', None, [], False)
+    foreign = any(getattr(unwrap(o), 'eResource', r) is not r for o in closure(r))
+    return ('returned', dump, wf, foreign)
+
+
+def _unordered_opposites(dump):
+    out = []
+    for o in dump:
+        if len(o) < 2 or not isinstance(o[1], list):
+            out.append(o)
+            continue
+        feats = [(n, sorted(v, key=repr)) if n in ('friends', 'friendOf') and isinstance(v, list) else (n, v)
+                 for n, v in o[1]]
+        out.append((o[0], feats) + tuple(o[2:]))
+    return out
+
+
+def follow_up(env, rs, target, priors, timeout):
+    """After a failed load: the intact document, in the same ResourceSet and in a fresh one, must load as it
+    does in a ResourceSet that never saw a failure."""
+    intact = env.files.get(target, env.files[f'main.{env.fmt}'])
+    with open(env.path(target), 'wb') as f:
+        f.write(intact)
+    base = env.baselines[(target, tuple(priors))]
+    probs = []
+    for where, rs_, load_priors in (('same-rset', rs, False), ('fresh-rset', new_rset(env), True)):
+        got = intact_load(env, rs_, target, priors, timeout, load_priors)
+        if got[0] == 'hang':
+            probs.append(('hang', f'loading the intact document after a failed load hangs ({where})'))
+        elif got[0] != base[0]:
+            probs.append(('later-load-affected', f'after a failed load the intact document {got[0]} '
+                          f'({got[1] if got[0] == "raised" else "a resource"}) in the {where}; without a previous failure it '
+                          f'{base[0]}', where))
+        elif got[0] == 'returned':
+            # in the same ResourceSet the cross-referenced documents are already loaded (left by the nested
+            # autoloads of the failed attempt), and the ORDER of a many-valued bidirectional reference depends
+            # on which of its two documents was loaded first: compared as multisets there, exactly otherwise
+            norm = _unordered_opposites if where == 'same-rset' else (lambda d: d)
+            if norm(got[1]) != norm(base[1]):
+                probs.append(('later-load-affected', f'after a failed load the intact document loads differently in the '
+                              f'{where}: ' + _first_dump_diff([norm(base[1])], [norm(got[1])]), where))
+            elif set(got[2]) - set(base[2]):
+                probs.append(('later-load-affected', f'after a failed load the intact document loads ill-formed in the '
+                              f'{where}: {sorted(set(got[2]) - set(base[2]))}', where))
+            elif got[3] and not base[3]:
+                probs.append(('later-load-affected', f'after a failed load the intact document holds objects of another '
+                              f'resource ({where})', where))
+    return probs
+
+
+def _attempt(env, target, priors, timeout, model, follow=False, restore=None):
     from pyecore.resources import URI
     rs = new_rset(env)
     res = {'outcome': None, 'problems': [], 'corr': None, 'setup_failed': False, 'nested': 0}
@@ -710,6 +820,12 @@ def _attempt(env, target, priors, timeout, model):
     if model is not None:
         res['corr'] = compare_with_model(rs, model, res)
     res['nested'] = sum(_count(n) for n in rs.trace_roots[n_roots_before:]) - (len(rs.trace_roots) - n_roots_before)
+    if follow and out1 == 'raised' and out2 != 'hang':
+        for name, content in (restore or {}).items():
+            with open(env.path(name), 'wb') as f:
+                f.write(content)
+        probs += follow_up(env, rs, target, priors, timeout)
+        res['followed'] = True
     # well-formedness of what loaded (may resolve proxies, hence after the registry checks)
     if out1 == 'returned':
         try:
@@ -890,7 +1006,8 @@ def b64(b):
 
 
 def make_case(env, target, data, priors, kind, what, spec_info):
-    return {'format': env.fmt, 'files': {k: b64(v) for k, v in env.files.items()}, 'target': target,
+    return {'format': env.fmt, 'files': {k: b64(v) for k, v in env.files.items()},
+            'restore': {k: b64(v) for k, v in env.restore.items()}, 'target': target,
             'data': b64(data), 'priors': priors, 'corruption': kind, 'what': what, 'info': spec_info}
 
 
@@ -908,11 +1025,13 @@ def run(ctx, out):
     timeout = 5.0
     stats = {'attempts': 0, 'raised': 0, 'returned': 0, 'hang': 0, 'by_kind': {}, 'outcome_by_kind': {},
              'prefix_attempts': 0, 'corruption_attempts': 0, 'model_calls': 0, 'with_nested_loads': 0,
-             'setup_failed': 0, 'registry_walk_calls': 0, 'docs': [], 'samples': [], 'distinct': set(), 'intact_not_loading': []}
-    n_specs, nmax, prefix_cap = (5, 5, 1200) if not thorough else (20, 7, 6000)
+             'setup_failed': 0, 'registry_walk_calls': 0, 'followed_by_intact_reload': 0, 'later_load_affected_inherited': 0, 'docs': [], 'samples': [], 'distinct': set(), 'intact_not_loading': []}
+    n_specs, nmax, prefix_cap = (4, 5, 1000) if not thorough else (16, 7, 5000)
     budget = time.time() + (38 if not thorough else 500)
     cut = False
     mm = make_mm()
+
+    tainted = {}
 
     def record(env, target, data, priors, kind, what, info, r, full=None):
         stats['attempts'] += 1
@@ -925,6 +1044,8 @@ def run(ctx, out):
         stats['by_kind'][kind] = stats['by_kind'].get(kind, 0) + 1
         if r['nested']:
             stats['with_nested_loads'] += 1
+        if r.get('followed'):
+            stats['followed_by_intact_reload'] += 1
         if model is not None and not r['setup_failed'] and r['outcome'] != 'hang':
             stats['model_calls'] += 1
         stats['distinct'].add((env.fmt, target, tuple(priors), hash(data)))
@@ -932,6 +1053,14 @@ def run(ctx, out):
         if full is not None and r['outcome'] == 'returned' and is_proper_prefix(data, full):
             r['problems'].append(('half-built', f'a document truncated after {len(data)} of {len(full)} bytes was loaded'))
         seen = set()
+        affected = any(p[0] == 'later-load-affected' for p in r['problems'])
+        if r.get('followed'):
+            # state leaked by a failed load can be process-wide: only a detection that follows a clean
+            # reload is attributed to its own attempt; the following ones are counted as inherited
+            if affected and tainted.get(env.fmt):
+                stats['later_load_affected_inherited'] += 1
+                r['problems'] = [p for p in r['problems'] if p[0] != 'later-load-affected']
+            tainted[env.fmt] = affected
         for prob in r['problems']:
             clause, msg = prob[0], prob[1]
             if clause in seen:
@@ -984,7 +1113,7 @@ def run(ctx, out):
             for k in list(range(0, len(full), stride)) + [len(full.rstrip())]:
                 target, priors = scenarios[k % 7 % 4] if k % 7 < 4 and k % 3 == 0 else scenarios[0]
                 data = full[:k]
-                r = attempt(env, target, data, priors, timeout, model)
+                r = attempt(env, target, data, priors, timeout, model, follow=(k % 25 == 0))
                 stats['prefix_attempts'] += 1
                 record(env, target, data, priors, 'truncation', f'first {k} of {len(full)} bytes', info, r, full)
                 if time.time() > budget:
@@ -997,7 +1126,7 @@ def run(ctx, out):
                     break
                 todo = [scenarios[0], scenarios[3]] if (thorough or ci % 2 == 0) else [scenarios[2]]
                 for target, priors in todo:
-                    r = attempt(env, target, data, priors, timeout, model)
+                    r = attempt(env, target, data, priors, timeout, model, follow=True)
                     stats['corruption_attempts'] += 1
                     record(env, target, data, priors, kind, what, info, r)
                     if len(stats['samples']) < 5 and r['outcome'] and ci % 17 == 3:
@@ -1016,7 +1145,9 @@ def run(ctx, out):
                     env2_files[ext] = data
                     with tempfile.TemporaryDirectory(dir=scratch) as d2:
                         env2 = Env(d2, fmt, env2_files, mm)
-                        r = attempt(env2, main, full, [f'prior.{fmt}'], timeout, model)
+                        env2.baselines = env.baselines
+                        env2.restore = {ext: files[ext]}
+                        r = attempt(env2, main, full, [f'prior.{fmt}'], timeout, model, follow=True)
                         stats['corruption_attempts'] += 1
                         record(env2, main, full, [f'prior.{fmt}'], 'nested:' + kind, 'in ext: ' + what, info, r)
                     if time.time() > budget:
@@ -1036,6 +1167,8 @@ def run(ctx, out):
         'attempts_by_corruption_kind': stats['by_kind'],
         'outcome_by_format_kind': stats['outcome_by_kind'],
         'attempts_with_nested_get_resource': stats['with_nested_loads'],
+        'failed_loads_followed_by_intact_reload(same+fresh rset)': stats['followed_by_intact_reload'],
+        'later_load_affected_inherited(not attributed)': stats['later_load_affected_inherited'],
         'registry_walk_calls(get/remove on intact documents)': stats['registry_walk_calls'],
         'attempts_whose_prior_documents_failed_to_load': stats['setup_failed'],
         'intact_documents_not_loading': stats['intact_not_loading'][:5],
@@ -1078,7 +1211,8 @@ def replay(ctx, rep):
         return 1 if bad else 0
     with tempfile.TemporaryDirectory(dir=scratch) as d:
         env = Env(d, case['format'], files, make_mm())
-        r = attempt(env, case['target'], data, case['priors'], 5.0, None)
+        env.restore = {k: base64.b64decode(v) for k, v in (case.get('restore') or {}).items()}
+        r = attempt(env, case['target'], data, case['priors'], 5.0, None, follow=True)
         full = files.get(f'main.{case["format"]}', b'')
         if r['outcome'] == 'returned' and is_proper_prefix(data, full):
             r['problems'].append(('half-built', 'a strictly truncated document was loaded'))
